@@ -41,6 +41,7 @@ def verify_one(arg):
         d["raises_allowed"] = c.raises
         d["extracted"] = dict(repo.extracted)
         d["aux_labels"] = sorted(c.aux)
+        d["unconfirmed_undecided"] = c.options.get("unconfirmed") == "undecided"
         d["samples"] = [o.sample_smt for o in fr.obs.values() if o.sample_smt][:2]
         d["escaped"] = fr.escaped
         return d
@@ -274,16 +275,33 @@ def main(argv=None):
             if confirmed:
                 violations.append({"obligation": ob["name"], "replay": confirmed[0], "confirmed": True,
                                    "observed": confirmed[2].get("observed"), "path": confirmed[1]["path"]})
-            elif first[1].get("precise", True):
+            elif first[1].get("precise", True) and not fr.get("unconfirmed_undecided"):
                 violations.append({"obligation": ob["name"], "replay": first[0], "confirmed": False,
                                    "observed": first[2].get("observed"), "path": first[1]["path"]})
             else:
-                undecided.append(f"{ob['name']}: fails on an abstracted/imprecise path and the counter-model does not replay "
+                undecided.append(f"{ob['name']}: fails on an abstracted/imprecise path (or a code-derived clause) and no witness replays "
                                  f"({first[2].get('observed')})")
     bounded = []
     for ex in extras:
         if ex.get("status") == "violation":
-            violations.append({"obligation": ex["name"], "replay": ex.get("replay", ""), "confirmed": True,
+            # a bounded stand-in reports a concrete failing input / history; a structural (AST) contract checker reports source lines only:
+            # the witness finder of the property's contract file is asked for a failing input
+            confirmed = ex.get("kind") == "bounded" or bool(ex.get("has_input"))
+            if not confirmed and ex.get("replay") and tasks:
+                try:
+                    rp = os.path.join(ROOT, ex["replay"])
+                    rep = json.load(open(rp))
+                    rep.update({"kind": "scan", "contract_file": tasks[0][0], "target": results[0].get("target") if results else "", "model": {}, "types": {}})
+                    json.dump(rep, open(rp, "w"), indent=1, default=str)
+                    r = native_replay(ex["replay"], timeout=120)
+                    rep["native"] = r
+                    json.dump(rep, open(rp, "w"), indent=1, default=str)
+                    if r.get("confirmed"):
+                        confirmed = True
+                        ex["detail"] = (ex.get("detail", "") + " || witness: " + str(r.get("observed")))[:900]
+                except (OSError, ValueError, KeyError):
+                    pass
+            violations.append({"obligation": ex["name"], "replay": ex.get("replay", ""), "confirmed": confirmed,
                                "observed": ex.get("detail", ""), "path": ""})
         elif ex.get("status") in ("error", "timeout"):
             errors.append(f"{ex['name']}: {ex.get('status')}: {ex.get('detail', '')[:300]}")
